@@ -36,6 +36,11 @@ func storeDigest(dir string) string {
 		if err != nil {
 			continue
 		}
+		if (strings.HasSuffix(rel, "segmeta.json") || strings.HasSuffix(rel, "metricmeta.json") || strings.HasSuffix(rel, "virtualtablenames.txt")) && len(strings.TrimSpace(string(b))) == 0 {
+			// an empty list and no list are the same outcome (start-up creates an empty segmeta.json when there is
+			// none; a pass that deleted the last segment removes the file)
+			continue
+		}
 		if strings.HasSuffix(rel, "segmeta.json") || strings.HasSuffix(rel, "virtualtablenames.txt") {
 			// line order is not part of the outcome
 			lines := strings.Split(strings.TrimSpace(string(b)), "\n")
@@ -416,7 +421,20 @@ func init() {
 		Level: "fault_enumeration",
 		Rule: "for each seeded history (1-2 indexes, 2-6 rotated segments whose newest event lies clearly before / after the retention horizon or whose range straddles it, optionally an open segment with old data) a time-based retention pass runs on the fake clock; then queries, a restart, the pass again, queries. Enumeration: the process _exits after every mutating fs call k of the pass (thorough: all k; quick: all k of 4 histories up to a cap); the next incarnation repeats the pass and the final store digest (segment directories, segmeta.json, metrics meta, table names) must equal that of the uninterrupted run. distinct = (history, digest of the store at the crash); non-trivial = the pass had at least one victim",
 		Run:   runC14,
-		Oracle: func(res *RunResult) []Violation { return retentionOracle("C14", res) },
+		Oracle: func(res *RunResult) []Violation {
+			vs := retentionOracle("C14", res)
+			// crash-point jobs carry the store digest of the uninterrupted run of the same history: the
+			// interrupted-and-repeated pass must end in the same store (part of the oracle, so that a replay and the
+			// confirmation in fresh processes judge the same thing)
+			if want, _ := res.Plan.Params["expect_digest"].(string); want != "" && res.Dir != "" && len(res.Incs) == 2 && res.Incs[1].Exit == 0 {
+				if d := storeDigest(res.Dir); d != want {
+					vs = append(vs, Violation{Sig: "C14:interrupted-and-repeated-pass-differs-from-uninterrupted", Msg: fmt.Sprintf("%s: store digest %s, uninterrupted run %s", res.Plan.Note, d, want)})
+				}
+			}
+			return vs
+		},
+		// the expected digest belongs to the whole history: a shrunk history would have another one
+		Pinned: func(op *plan.Op) bool { return true },
 		Assumptions: []string{
 			"segments are placed at least two minutes away from the horizon (equality with the horizon is not exercised)",
 			"the volume- and inode-based passes are not driven yet (only the time-based pass)",
@@ -492,6 +510,7 @@ func runC14(c *Ctx) {
 		p := jb.p.Clone()
 		p.Incs[0].Faults = []plan.Fault{{Kind: "crash_after", At: jb.k}}
 		p.Note = fmt.Sprintf("history %d: crash after fs call %d (%s) inside the retention pass", jb.hist, jb.k, jb.call)
+		p.Params["expect_digest"] = jb.digest
 		var atCrash string
 		res, err := RunPlan(p, func(dir string, next int) error {
 			if next == 1 {
@@ -505,11 +524,6 @@ func runC14(c *Ctx) {
 		}
 		defer res.Cleanup()
 		vs := c.Check.Oracle(res)
-		if len(res.Incs) == 2 && res.Incs[1].Exit == 0 {
-			if d := storeDigest(res.Dir); d != jb.digest {
-				vs = append(vs, Violation{Sig: "C14:interrupted-and-repeated-pass-differs-from-uninterrupted", Msg: fmt.Sprintf("%s: store digest %s, uninterrupted run %s", p.Note, d, jb.digest)})
-			}
-		}
 		c.mu.Lock()
 		done++
 		c.mu.Unlock()
